@@ -27,7 +27,7 @@ def read_state(path):
     for e in (data if isinstance(data, list) else [data]):
         r = e['results']
         out.append({'size': e['inputs']['code']['parameters']['L_x'], 'rate': e['inputs']['error_rate'],
-                    'dec': str(e['inputs']['decoder']['parameters'].get('error_type')),
+                    'dec': str(e['inputs']['decoder']['parameters'].get('error_type')) + ('+weights' if e['inputs']['decoder']['parameters'].get('weights') is not None else ''),
                     'n_runs': r['n_runs'], 'lens': [len(r['effective_error']), len(r['success']), len(r['codespace'])],
                     'eff': r['effective_error'], 'succ': r['success'], 'cs': r['codespace']})
     return out
@@ -60,12 +60,14 @@ def main():
     scs = []
     bases = [{'sizes': [2, 3], 'rates': [0.1]},
              # two simulations that differ ONLY in the decoder parameters (high rate: their results differ visibly)
-             {'sizes': [3], 'rates': [0.3], 'decs': [{}, {'error_type': 'X'}]}]
+             {'sizes': [3], 'rates': [0.3], 'decs': [{}, {'error_type': 'X'}]},
+             # a decoder parameter that is a nested list in the specification (explicit matching weights for the 18 qubits of 3x3)
+             {'sizes': [3], 'rates': [0.1, 0.3], 'decs': [{'weights': [[1.0 + 0.25 * (i % 3) for i in range(18)], [1.0] * 18]}]}]
     # systematic: every trial boundary, every byte-offset class of a checkpoint write, both container kinds
     for gz in (False, True):
         for f in (1, 2, 3):
             T = 5
-            base = bases[(f + gz) % 2] if f < 3 else bases[rng.randrange(2)]
+            base = bases[(f + gz) % 3] if f < 3 else bases[rng.randrange(3)]
             for kind, ats in (('kbd_trial', range(1, 2 * T + 1, 1 if tier == 'thorough' else 3)), ('kill_trial', range(1, 2 * T + 1, 3)),
                               ('kbd_save', (1, 2)), ('kill_after_save', (1, 2))):
                 for at in ats:
